@@ -8,6 +8,7 @@ import (
 	"go/types"
 	"strings"
 
+	"gengoverif/checker/internal/cfgx"
 	"gengoverif/checker/internal/core"
 )
 
@@ -398,5 +399,171 @@ func c06R9(p *core.Program, r *core.Report) {
 	})
 	if nloops == 0 {
 		r.Anchor(rule, "the loop over the generators in the per-package function")
+	}
+}
+
+// c09R8: "%T / %v / %% ... panics on any other verb": the rune that is dispatched as the verb is the one read directly
+// after '%'. From the Next() that reads it (the advance made where the cursor is known to be '%'), no further Next() is
+// reachable before the cursor has been compared with a verb ('T', 'v', '%': a case of the verb switch, an equality
+// test, or a lookup in a verb table keyed by the cursor). A loop that skips "flags" first makes `%#v` render instead of
+// panic and swallows the flag characters.
+func c09R8(r *core.Report, sc *scanClosure) {
+	const rule = "R8"
+	r.Floor(rule, 1)
+	info := sc.f.Info()
+	isVerbConst := func(e ast.Expr) bool {
+		v, ok := core.ConstInt(info, e)
+		return ok && (v == 'T' || v == 'v' || v == '%')
+	}
+	verbTest := func(n ast.Node) bool {
+		e, ok := n.(ast.Expr)
+		if !ok {
+			return false
+		}
+		e = ast.Unparen(e)
+		if isVerbConst(e) {
+			return true // a case expression of a switch on the cursor
+		}
+		found := false
+		ast.Inspect(e, func(m ast.Node) bool {
+			if b, isB := m.(*ast.BinaryExpr); isB && (b.Op == token.EQL || b.Op == token.NEQ) {
+				if (core.VarOf(info, b.X) == sc.cursor && isVerbConst(b.Y)) || (core.VarOf(info, b.Y) == sc.cursor && isVerbConst(b.X)) {
+					found = true
+				}
+			}
+			return true
+		})
+		return found
+	}
+	tableLookup := func(n ast.Node) bool {
+		hit := false
+		if n == nil {
+			return false
+		}
+		ast.Inspect(n, func(m ast.Node) bool {
+			if _, isLit := m.(*ast.FuncLit); isLit {
+				return false
+			}
+			if ix, isIx := m.(*ast.IndexExpr); isIx && core.VarOf(info, ix.Index) == sc.cursor {
+				if t := info.TypeOf(ix.X); t != nil {
+					if _, isMap := t.Underlying().(*types.Map); isMap {
+						hit = true
+					}
+				}
+			}
+			return true
+		})
+		return hit
+	}
+	n := 0
+	for _, d := range sc.g.Points(func(nd ast.Node) bool { return sc.defsCursor(nd) }) {
+		afterPercent := false
+		for _, f := range sc.g.FactsAt(d) {
+			if v, ok := varEqConst(info, f, sc.cursor, '%'); ok && v {
+				afterPercent = true
+			}
+		}
+		if !afterPercent {
+			continue
+		}
+		n++
+		tp, found := sc.g.Reach(d, false, cfgx.Query{
+			Target: func(q cfgx.Point) bool { return q.Node() != nil && sc.defsCursor(q.Node()) },
+			Cut: func(q cfgx.Point) bool {
+				return q.Node() != nil && (verbTest(q.Node()) || tableLookup(q.Node()))
+			},
+		})
+		if found {
+			r.Bad(rule, sc.f, "the verb is the rune directly after '%'", d.Node().Pos(), "after the rune following '%' was read, the cursor is advanced again at "+r.Prog.Pos(tp.Node().Pos())+" (`"+core.ExprStr(tp.Node())+"`) before it was compared with a verb: characters between '%' and the verb are skipped, so `%#v` or `%+T` render instead of panicking and the skipped characters are lost")
+		} else {
+			r.OK(rule, sc.f, "the verb is the rune directly after '%'", d.Node().Pos(), "no Next() between the read of the verb and its comparison with 'T', 'v', '%'")
+		}
+	}
+	if n == 0 {
+		r.Anchor(rule, "the Next() that reads the verb after '%' in the Sprintf closure")
+	}
+}
+
+// c10R17: "zero-valued struct fields may be omitted" - and only those: in the struct arm of the value printer the
+// conditions a field has to pass before it is rendered come from a closed list: the field is exported
+// (`ast.IsExported` / `token.IsExported` of the field's name, `PkgPath == ""`), and `reflectx.IsEmptyValue` of the
+// field's own value answered false. Any other condition (an emptiness test of the package's own that follows
+// pointers, a tag, a kind) leaves out a field whose value is not the zero value: a non-nil pointer to 0 is not nil.
+func c10R17(p *core.Program, r *core.Report, f *core.Func, armOf map[string]*ast.CaseClause) {
+	const rule = "R17"
+	r.Floor(rule, 1)
+	cc := armOf["struct"]
+	if cc == nil {
+		r.Anchor(rule, "struct arm of ValueLit")
+		return
+	}
+	info := f.Info()
+	g := graph(f)
+	self := f.Obj()
+	if f.Origin != nil {
+		self = f.Origin.Obj()
+	}
+	n := 0
+	for _, c := range core.Calls(cc, true) {
+		if core.CalleeFunc(info, c) != self || self == nil {
+			continue
+		}
+		// the innermost loop of the arm around the call
+		var loop ast.Node
+		path := core.PathTo(cc, c)
+		for k := len(path) - 1; k >= 0; k-- {
+			switch path[k].(type) {
+			case *ast.ForStmt, *ast.RangeStmt:
+				if loop == nil {
+					loop = path[k]
+				}
+			}
+		}
+		if loop == nil {
+			continue
+		}
+		n++
+		bad := ""
+		for _, fct := range g.FactsAt(g.PointOf(c)) {
+			if fct.Cond == nil || fct.Cond.Pos() < loop.Pos() || fct.Cond.End() > loop.End() || fct.Tag != nil {
+				continue
+			}
+			cond := ast.Unparen(fct.Cond)
+			okAtom := false
+			switch x := cond.(type) {
+			case *ast.CallExpr:
+				name := core.CalleeName(info, x)
+				switch {
+				case name == "go/ast.IsExported" || name == "go/token.IsExported":
+					okAtom = fct.Val
+				case strings.HasSuffix(name, "/reflect.IsEmptyValue") && strings.HasPrefix(name, "github.com/octohelm/x/"):
+					if !fct.Val && len(x.Args) == 1 {
+						a, _ := core.Resolve(info, f.Body, x.Args[0])
+						if fc, isCall := ast.Unparen(a).(*ast.CallExpr); isCall && core.CalleeName(info, fc) == "(reflect.Value).Field" {
+							okAtom = true
+						}
+					}
+				case strings.HasSuffix(name, ").IsExported"):
+					okAtom = fct.Val
+				}
+			case *ast.BinaryExpr:
+				// ft.PkgPath == "" : exported
+				if sel, isSel := ast.Unparen(x.X).(*ast.SelectorExpr); isSel && sel.Sel.Name == "PkgPath" && constStrIs(info, x.Y, "") && (x.Op == token.EQL) == fct.Val {
+					okAtom = true
+				}
+				// loop bound
+				if x.Op == token.LSS || x.Op == token.GTR || x.Op == token.LEQ || x.Op == token.GEQ {
+					okAtom = true
+				}
+			}
+			if !okAtom {
+				bad = core.ExprStr(fct.Cond)
+			}
+		}
+		r.Check(bad == "", rule, f, "a struct field is left out only when it is unexported or the zero value", c.Pos(), "the conditions before rendering a field: exported, and reflectx.IsEmptyValue(rv.Field(i)) is false",
+			"the field is rendered only under `"+bad+"`, which is neither the export test nor reflectx.IsEmptyValue of the field's own value: a field whose value is not the zero value (a non-nil pointer to 0, false or \"\") can be left out, and the literal evaluates to a different value")
+	}
+	if n == 0 {
+		r.Anchor(rule, "the recursive call for a field in the struct arm's loop")
 	}
 }
